@@ -640,40 +640,44 @@ class SymInt:
         return int_truediv(o, self)
 
     # comparison
-    def _cmp(self, o, f):
+    def _cmp(self, o, f, decided=None):
         o = SymInt.lift(o)
+        if decided is not None:
+            d = decided(self.lo, self.hi, o.lo, o.hi)  # the sound intervals may already decide the comparison
+            if d is not None:
+                return SymBool(z3.BoolVal(d))
         w = max(self.e.size(), o.e.size())
         return SymBool(f(self.ext(w), o.ext(w)))
 
     def __lt__(self, o):
         if not isinstance(o, (int, SymInt, SymBool)):
             return NotImplemented
-        return self._cmp(o, lambda a, b: a < b)
+        return self._cmp(o, lambda a, b: a < b, lambda a, b, c, d: True if b < c else (False if a >= d else None))
 
     def __le__(self, o):
         if not isinstance(o, (int, SymInt, SymBool)):
             return NotImplemented
-        return self._cmp(o, lambda a, b: a <= b)
+        return self._cmp(o, lambda a, b: a <= b, lambda a, b, c, d: True if b <= c else (False if a > d else None))
 
     def __gt__(self, o):
         if not isinstance(o, (int, SymInt, SymBool)):
             return NotImplemented
-        return self._cmp(o, lambda a, b: a > b)
+        return self._cmp(o, lambda a, b: a > b, lambda a, b, c, d: True if a > d else (False if b <= c else None))
 
     def __ge__(self, o):
         if not isinstance(o, (int, SymInt, SymBool)):
             return NotImplemented
-        return self._cmp(o, lambda a, b: a >= b)
+        return self._cmp(o, lambda a, b: a >= b, lambda a, b, c, d: True if a >= d else (False if b < c else None))
 
     def __eq__(self, o):
         if not isinstance(o, (int, SymInt, SymBool)):
             return NotImplemented
-        return self._cmp(o, lambda a, b: a == b)
+        return self._cmp(o, lambda a, b: a == b, lambda a, b, c, d: False if (b < c or a > d) else (True if a == b == c == d else None))
 
     def __ne__(self, o):
         if not isinstance(o, (int, SymInt, SymBool)):
             return NotImplemented
-        return self._cmp(o, lambda a, b: a != b)
+        return self._cmp(o, lambda a, b: a != b, lambda a, b, c, d: True if (b < c or a > d) else (False if a == b == c == d else None))
 
     def __bool__(self):
         return bool(self != 0)
@@ -749,6 +753,10 @@ class SymInt:
         return self
 
     def to_bytes(self, *a, **k):
+        if not self.is_const() and (a[:1] == (1,) or k.get("length") == 1) and self.lo >= 0 and self.hi <= 255:
+            from .symstr import SymBytes
+
+            return SymBytes([self])
         return self.concretize().to_bytes(*a, **k)
 
 
